@@ -436,7 +436,7 @@ def concrete_residuals(obs, tol=1e-6):
 
 
 def run_symbolic(execute, cfg, mods, rounds=0, conj=False, symbolic_labels=False, facade=None,
-                 replay_tries=6, seed=0, max_paths=20000, on_exception=None, simplify=False):
+                 replay_tries=6, seed=0, max_paths=20000, on_exception=None, simplify=False, wide_probe=False):
     """explore all paths of execute(cfg, V) with the repository modules patched; discharge obligations;
     replay candidates on the unpatched code.
     returns dict(paths, obligations, discharged, queries, solver_s, violations, inconclusive, out_of_bound)"""
@@ -485,14 +485,23 @@ def run_symbolic(execute, cfg, mods, rounds=0, conj=False, symbolic_labels=False
             paths = []
             core.CTX = None
             paths = _explore_oob(body, max_paths, out)
+            truncated = bool(getattr(core.explore, 'truncated', False))
         finally:
             undo()
             core.CTX = None
     except Inconclusive as e:
+        # the symbolic run could not follow the code (an operation outside the model).  Before reporting the configuration as inconclusive the
+        # obligations are probed on the unpatched code with drawn numbers (ordinary and extreme common scales): a concrete failure is a real
+        # violation with a replay; no failure leaves the configuration inconclusive (never a pass)
+        hit = probe_concrete(execute, cfg, random.Random(hash((seed, str(cfg), 'probe')) & 0xffffffff), wide=wide_probe)
+        if hit is not None:
+            hit['sig']['symbolic_failed'] = [f'symbolic run inconclusive: {e}'[:160]]
+            out['violations'].append(hit)
         out['inconclusive'].append({'cfg': cfg, 'error': f'Inconclusive: {e}'})
         return out
 
     rng = random.Random(hash((seed, str(cfg))) & 0xffffffff)
+    replays = 0
     for decisions, r, ctx in paths:
         out['queries'] += ctx.lra_queries; out['solver_s'] += ctx.lra_time
         if r is PathAbort:
@@ -509,7 +518,12 @@ def run_symbolic(execute, cfg, mods, rounds=0, conj=False, symbolic_labels=False
             failed = [(nm, None) for nm, ok in payload if not ok]
         if not failed:
             continue
-        # ---- candidate: replay on the unpatched code with concrete numbers
+        # ---- candidate: replay on the unpatched code with concrete numbers (at most 60 candidate paths per configuration are replayed:
+        # once a configuration has that many failing paths the remaining ones are reported as inconclusive without a replay)
+        replays += 1
+        if replays > 60 and out['violations']:
+            out['unreplayed_candidates'] = out.get('unreplayed_candidates', 0) + 1          # the configuration already has reproduced violations
+            continue
         rep = replay_candidate(execute, cfg, ctx, V, failed, rng, replay_tries)
         if rep['status'] == 'reproduced':
             out['violations'].append(rep['violation'])
@@ -521,6 +535,8 @@ def run_symbolic(execute, cfg, mods, rounds=0, conj=False, symbolic_labels=False
         else:
             out['inconclusive'].append({'cfg': cfg, 'failed': failed[:6], 'status': rep['status'],
                                         'decisions': [str(d)[:100] for d in ctx.log[:12]], 'trace': (tb or '')[-600:]})
+    if truncated:
+        out['inconclusive'].append({'cfg': cfg, 'error': f'Inconclusive: path budget exceeded ({max_paths} paths explored and evaluated; the rest is unexplored)'})
     return out
 
 
@@ -567,6 +583,47 @@ def replay_candidate(execute, cfg, ctx, V, failed, rng, tries):
 def _repo_src():
     from . import driver
     return driver.REPO_SRC
+
+
+class DrawV(ConV):
+    """concrete value factory that draws each input when it is first asked for"""
+    def __init__(s, rng, wide):
+        super().__init__({}, {}); s.rng = rng; s.wide = wide; s.group = {}
+
+    def val(s, name, kind='c'):
+        if name not in s.values:
+            v = _rand_value(kind, s.rng)
+            if s.wide and kind == 'pos' and '.' in name:
+                sfx = name.rsplit('.', 1)[1]
+                if sfx not in s.group: s.group[sfx] = 10.0 ** s.rng.choice((-10, -9, -7, 7, 9, 10))
+                v = v * s.group[sfx]
+            s.values[name] = v
+        return s.values[name]
+
+
+def probe_concrete(execute, cfg, rng, n=6, wide=False):
+    """wide: every second draw puts all element values of one physical kind (name suffix) at a common extreme scale; only for harnesses whose
+    circuits stay well conditioned under such a scaling (ideal sources and R, L, C only) - absolute tolerances hidden in the code bite there"""
+    for t in range(n):
+        V = DrawV(rng, wide=(wide and t % 2 == 1))
+        core.CTX = None
+        reset_module_state()
+        try:
+            obs = execute(cfg, V)
+        except Exception:
+            continue          # exceptions of a drawn run are not interpreted here (the symbolic run reports them when it can follow the code)
+        bad = concrete_residuals(obs)
+        if bad:
+            # confirm through the ordinary replay path (same inputs, fresh state)
+            try:
+                rep = run_concrete(execute, cfg, dict(V.values), {})
+            except HarnessError:
+                continue
+            if rep['bad'] and rep['kind'] == 'residual':
+                return {'cfg': cfg, 'inputs': _jsonable(V.values), 'labels': {},
+                        'sig': {'kind': 'residual', 'obligation': rep['bad'][0][0], 'exception': None, 'where': None, 'symbolic_failed': []},
+                        'bad': [(n_, m, s_) for n_, m, s_ in rep['bad'][:8]]}
+    return None
 
 
 def run_concrete(execute, cfg, inputs, labelmap=None):
